@@ -647,3 +647,43 @@ func (g *gen) shuffle(a []string) {
 		a[i], a[j] = a[j], a[i]
 	}
 }
+
+// ---------------------------------------------------------------- histories of calls
+
+func (g *gen) retsRequest() string {
+	var steps []string
+	kept := 0
+	call := func(prefix string) string {
+		switch g.r.Intn(6) {
+		case 0:
+			return prefix + ".f0"
+		case 1:
+			return fmt.Sprintf("%s.f1.%d", prefix, g.r.Intn(50))
+		case 2, 3:
+			return fmt.Sprintf("%s.f2.%d.%d", prefix, g.r.Intn(100), 1+g.r.Intn(9))
+		case 4:
+			return fmt.Sprintf("%s.f3.%d.%d", prefix, g.r.Intn(20), g.r.Intn(20))
+		default:
+			return fmt.Sprintf("%s.fe.%d", prefix, g.r.Intn(30))
+		}
+	}
+	for i := 0; i < 2+g.r.Intn(7); i++ {
+		switch g.r.Intn(10) {
+		case 0:
+			steps = append(steps, fmt.Sprintf("t.%d", g.r.Intn(20)))
+			kept += 3
+		case 1:
+			steps = append(steps, call("k"))
+		case 2:
+			if kept > 0 {
+				steps = append(steps, fmt.Sprintf("w.%d.%d.%d", g.r.Intn(kept), g.r.Intn(3), 100+g.r.Intn(100)))
+				continue
+			}
+			fallthrough
+		default:
+			steps = append(steps, call("c"))
+			kept++
+		}
+	}
+	return "rets " + strings.Join(steps, ";")
+}
